@@ -14,6 +14,9 @@ class TermMode:
     def __enter__(self):
         T.ENABLED = True
         T.reset()
+        T.TUPLE_INVERSES.clear()
+        import bitform
+        bitform.reset()
         values.init_consts()
         import engine
         engine._INTERPS.clear()
@@ -24,6 +27,15 @@ class TermMode:
         values.init_consts()
         import engine
         engine._INTERPS.clear()
+
+
+def fresh_terms():
+    """start a new term universe inside TermMode (bounds memory between independent proofs)"""
+    import engine, bitform
+    T.reset()
+    bitform.reset()
+    values.init_consts()
+    engine._INTERPS.clear()
 
 
 def backend_fn(m, ty_s, trait, name):
@@ -69,20 +81,63 @@ def block_bytes(I, v, ty):
     return flatten(I, v, ty)
 
 
+def wrapped_backend_fn(m, ty_s, trait, name):
+    """a backend impl on a wrapper struct whose only non-ZST field is `&Cipher` (aes::soft::Aes128BackEnc<'_>)"""
+    for f in m.fns:
+        if f.get('impl_trait') == trait and f.get('name') == name and f['crate'] in REPO_CRATES:
+            t = m.ty(f['mir']['locals'][1])
+            if t['k'] != 'ref':
+                continue
+            w = m.ty(t['t'])
+            if w['k'] != 'adt' or w.get('adt_kind') == 'union' or len(w.get('variants', [])) != 1:
+                continue
+            nz = [fd for fd in w['variants'][0]['f'] if m.ty(fd['t']).get('size') != 0]
+            if len(nz) == 1 and m.ty(nz[0]['t'])['k'] == 'ref' and m.ty(m.ty(nz[0]['t'])['t'])['s'] == ty_s:
+                return f
+    return None
+
+
 def roundtrip(m, ty_s, self_val_fn, first='enc'):
     """prove second(first(x)) = x on one symbolic instance. Returns (ok, detail)"""
-    f1 = backend_fn(m, ty_s, ENC if first == 'enc' else DEC, 'encrypt_block' if first == 'enc' else 'decrypt_block')
-    f2 = backend_fn(m, ty_s, DEC if first == 'enc' else ENC, 'decrypt_block' if first == 'enc' else 'encrypt_block')
+    n1 = (ENC, 'encrypt_block') if first == 'enc' else (DEC, 'decrypt_block')
+    n2 = (DEC, 'decrypt_block') if first == 'enc' else (ENC, 'encrypt_block')
+    f1 = backend_fn(m, ty_s, *n1)
+    f2 = backend_fn(m, ty_s, *n2)
+    wrapped = False
+    if f1 is None or f2 is None:
+        f1 = wrapped_backend_fn(m, ty_s, *n1)
+        f2 = wrapped_backend_fn(m, ty_s, *n2)
+        wrapped = True
     if f1 is None or f2 is None:
         return None, 'no backend impl on the cipher type itself'
     I = mk_interp(m, 20_000_000)
     st = State()
     I.entry_state = st
-    self_ty = m.ty(f1['mir']['locals'][1])['t']
     I.fresh += 1
     sobj = ('P', 'self', I.fresh)
-    st.mem[sobj] = self_val_fn(I, self_ty)
-    selfp = Ptr(sobj, (), None, None, None, None, False)
+    if not wrapped:
+        self_ty = m.ty(f1['mir']['locals'][1])['t']
+        st.mem[sobj] = self_val_fn(I, self_ty)
+        selfp = selfp2 = Ptr(sobj, (), None, None, None, None, False)
+    else:
+        ps = []
+        for f in (f1, f2):
+            wty = m.ty(f['mir']['locals'][1])['t']
+            wd = m.ty(wty)
+            fields = []
+            for fd in wd['variants'][0]['f']:
+                if m.ty(fd['t']).get('size') == 0:
+                    fields.append(I.zst(fd['t']))
+                else:
+                    cty = m.ty(fd['t'])['t']
+                    if sobj not in st.mem:
+                        st.mem[sobj] = self_val_fn(I, cty)
+                    fields.append(Ptr(sobj, (), None, None, None, None, False))
+            I.fresh += 1
+            wobj = ('P', 'backend%d' % len(ps), I.fresh)
+            st.mem[wobj] = Struct(wty, fields)
+            ps.append(Ptr(wobj, (), None, None, None, None, False))
+        selfp, selfp2 = ps
     inout_ty = m.ty(f1['mir']['locals'][2])
     block_ty = [I.types[fd['t']]['t'] for fd in inout_ty['variants'][0]['f'] if I.types[fd['t']]['k'] == 'ptr'][0]
     x = sym_block(I, block_ty, 'x')
@@ -93,7 +148,7 @@ def roundtrip(m, ty_s, self_val_fn, first='enc'):
         return False, '%s: %s %s' % (first, status, str(r)[:300])
     y = st.mem[out1]
     a2, out2 = inout_arg(I, st, f2, y, 'b')
-    status, r = run(I, f2['id'], [selfp, a2], st)
+    status, r = run(I, f2['id'], [selfp2, a2], st)
     if status != 'ok':
         return False, 'second direction: %s %s' % (status, str(r)[:300])
     z = st.mem[out2]
@@ -101,9 +156,13 @@ def roundtrip(m, ty_s, self_val_fn, first='enc'):
     if xb is None or zb is None:
         return False, 'block is not byte-flattenable'
     bad = []
+    canon = (lambda t: t)
+    if getattr(I, 'bitcanon', False):
+        import bitform
+        canon = bitform.recanon
     for i, (a, b) in enumerate(zip(xb, zb)):
-        if a.term is None or b.term is not a.term:
-            bad.append((i, T.first_diff(b.term, a.term)))
+        if a.term is None or b.term is None or canon(b.term) is not a.term:
+            bad.append((i, T.first_diff(canon(b.term), a.term)))
     if bad:
         return False, 'byte %d of %s(%s(x)) is not x[%d]: %s' % (bad[0][0], 'dec' if first == 'enc' else 'enc', first, bad[0][0], bad[0][1])
     return True, '%d bytes' % len(xb)
